@@ -40,6 +40,8 @@ pub enum KindSpec {
     Exec,
     /// `Async` adapter over one end of a socketpair (no tasks: registration only)
     Async,
+    /// executor with one task that owns an `Async` adapter of the same loop and waits on it for ever
+    ExecIo,
 }
 
 impl KindSpec {
@@ -53,6 +55,7 @@ impl KindSpec {
             KindSpec::Fd { .. } => "FdOneShot",
             KindSpec::Exec => "Exec",
             KindSpec::Async => "Async",
+            KindSpec::ExecIo => "ExecIo",
         }
     }
 }
@@ -113,6 +116,8 @@ pub enum Op {
     ReinsertFd(usize),
     /// adapt the stream released by into_inner again
     Readapt(usize),
+    /// insert an idle callback (which itself may act when it runs)
+    InsertIdle,
 }
 
 #[derive(Clone, Debug)]
@@ -138,6 +143,7 @@ pub struct Cfg {
     pub top_set_deadline: Vec<i8>,
     pub top_clone: bool,
     pub top_release: bool,
+    pub cb_idle: bool,
     pub end_order_choice: bool,
     pub update_disabled: bool,
     pub cb_remove: bool,
@@ -185,6 +191,7 @@ impl Cfg {
             top_set_deadline: vec![],
             top_clone: false,
             top_release: false,
+            cb_idle: false,
             end_order_choice: false,
             update_disabled: false,
             cb_remove: true,
@@ -307,6 +314,11 @@ pub struct Ctx {
     pub now_at_poll: u64,
     pub masks: Rc<epoll::Masks>,
     pub poisoned: bool,
+    /// idles inserted by callbacks: (ran count, inserted in dispatch number)
+    pub idles: Vec<(u32, u32)>,
+    /// end of the execution: monitors are off while reference cycles are being broken
+    pub teardown: bool,
+    pub dispatch_no: u32,
     pub pending_efd: Option<Rc<OwnedFd>>,
     pub pending_stream: Option<std::os::unix::net::UnixStream>,
     pub ever_rearmed_in_batch: bool,
@@ -487,6 +499,30 @@ impl Ctx {
                     })
                     .map_err(|e| format!("{e:?}"))
             }
+            KindSpec::ExecIo => {
+                let (exec, sched) = calloop::futures::executor::<u8>().expect("executor");
+                let (a, b) = std::os::unix::net::UnixStream::pair().expect("socketpair");
+                rt.peer = Some(b);
+                let r = self
+                    .h
+                    .insert_source(Tracked::new(exec, track.clone()), move |v, _, ctx: &mut Ctx| {
+                        let _g = &guard;
+                        ctx.on_cb(id, Payload::Exec(v));
+                    })
+                    .map_err(|e| format!("{e:?}"));
+                match self.h.adapt_io(a) {
+                    Ok(mut ad) => {
+                        let _ = sched.schedule(async move {
+                            ad.readable().await;
+                            0u8
+                        });
+                        ma.sig_at = Some(0);
+                    }
+                    Err(e) => self.violate(&["C08", "C15"], "insert-failed", &[("kind", "Async".into())], format!("adapt_io failed: {e:?}")),
+                }
+                rt.sched = Some(sched);
+                r
+            }
             KindSpec::Async => {
                 drop(guard);
                 let (a, b) = match self.pending_stream.take() {
@@ -641,7 +677,9 @@ impl Ctx {
             }
             return;
         }
-        if rm {
+        // removing an executor whose task owns an adapter is probed in a child process by the
+        // crash-probe driver (a destructor panic aborts the process and cannot be observed here)
+        if rm && a.spec != KindSpec::ExecIo {
             v.push(Op::Remove(i));
         }
         if a.enabled && dis {
@@ -675,7 +713,7 @@ impl Ctx {
                         v.push(Op::Cause(i))
                     }
                 }
-                KindSpec::Timer(_) | KindSpec::Async => {}
+                KindSpec::Timer(_) | KindSpec::Async | KindSpec::ExecIo => {}
             }
         }
         if cause2 {
@@ -695,7 +733,7 @@ impl Ctx {
                         v.push(Op::Cause2(i))
                     }
                 }
-                KindSpec::Timer(_) | KindSpec::Exec | KindSpec::Async => {}
+                KindSpec::Timer(_) | KindSpec::Exec | KindSpec::Async | KindSpec::ExecIo => {}
             }
         }
         if !in_cb && c.top_release && self.rt[i].fdd.is_some() {
@@ -747,7 +785,10 @@ impl Ctx {
                 v.push(Op::Insert(k));
             }
         }
-        if c.cb_remove_self_insert && self.m.len() < c.max_actors && self.m[me].alive {
+        if c.cb_idle && self.idles.len() < 2 {
+            v.push(Op::InsertIdle);
+        }
+        if c.cb_remove_self_insert && me != usize::MAX && self.m.len() < c.max_actors && self.m[me].alive {
             for &k in &c.insertable {
                 v.push(Op::RemoveSelfInsert(k));
             }
@@ -780,6 +821,9 @@ impl Ctx {
     // ------------------------------------------------------------------ callbacks
 
     pub fn on_cb(&mut self, id: usize, p: Payload) -> CbRet {
+        if self.teardown {
+            return CbRet::default();
+        }
         self.callbacks += 1;
         self.sync_implicit();
         let tr = self.rt[id].track.clone();
@@ -1064,6 +1108,38 @@ impl Ctx {
         ret
     }
 
+    pub fn on_idle(&mut self, k: usize) {
+        if self.teardown {
+            return;
+        }
+        self.callbacks += 1;
+        self.sync_implicit();
+        self.clause("idle-from-callback");
+        self.log(format!("idle {k}"));
+        self.idles[k].0 += 1;
+        if self.idles[k].0 > 1 {
+            self.violate(&["C13", "C08"], "idle-ran-twice", &[], format!("idle {k} inserted from a callback ran {} times", self.idles[k].0));
+        }
+        // the idle callback is itself a place from which every handle operation must work
+        self.cur.push(usize::MAX);
+        for _ in 0..self.cfg.max_cb_ops {
+            let menu = self.cb_menu(usize::MAX, &Payload::Ping);
+            if menu.is_empty() {
+                break;
+            }
+            let c = explore::choose(menu.len() as u32 + 1, Kind::Dev);
+            if c == 0 {
+                break;
+            }
+            self.deviated = true;
+            let op = menu[c as usize - 1];
+            self.decoded.push(format!("  in idle {k}: {op:?}"));
+            self.note(format!("idleop {op:?}"));
+            self.apply(op);
+        }
+        self.cur.pop();
+    }
+
     // ------------------------------------------------------------------ model helpers
 
     fn model_removed(&mut self, j: usize, by: u8, self_in_pe: bool) {
@@ -1327,7 +1403,7 @@ impl Ctx {
                             self.violate(&["C10"], "schedule-failed", &[], format!("schedule() on live executor {j} failed"));
                         }
                     }
-                    KindSpec::Timer(_) | KindSpec::Async => {}
+                    KindSpec::Timer(_) | KindSpec::Async | KindSpec::ExecIo => {}
                 }
             }
             Op::Cause2(j) => {
@@ -1366,7 +1442,7 @@ impl Ctx {
                         }
                         self.model_removed(j, 1, false);
                     }
-                    KindSpec::Timer(_) | KindSpec::Exec => {}
+                    KindSpec::Timer(_) | KindSpec::Exec | KindSpec::ExecIo => {}
                 }
             }
             Op::Unwrap(j) => {
@@ -1402,6 +1478,11 @@ impl Ctx {
                     // a plain Generic over the stream that an adapter gave back
                     self.insert_stream_generic(s);
                 }
+            }
+            Op::InsertIdle => {
+                let k = self.idles.len();
+                self.idles.push((0, self.dispatch_no));
+                let _ = self.h.insert_idle(move |ctx: &mut Ctx| ctx.on_idle(k));
             }
             Op::Readapt(j) => {
                 if let Some(s) = self.rt[j].released.take() {
@@ -1531,7 +1612,7 @@ impl Ctx {
             let tr = &self.rt[i].track;
             match a.spec {
                 KindSpec::Ping => a.ping || a.close_at.is_some(),
-                KindSpec::Chan | KindSpec::Exec => a.sig_at.map(|at| tr.pe_reg_seq.get() <= at).unwrap_or(false),
+                KindSpec::Chan | KindSpec::Exec | KindSpec::ExecIo => a.sig_at.map(|at| tr.pe_reg_seq.get() <= at).unwrap_or(false),
                 KindSpec::Timer(_) | KindSpec::Async => false,
                 KindSpec::Fd { r, w, mode } => {
                     let ready = (r && a.fdc > 0) || (w && a.fdc < 2);
@@ -1549,6 +1630,7 @@ impl Ctx {
 
     pub fn pre_dispatch(&mut self) {
         self.in_dispatch = true;
+        self.dispatch_no += 1;
         self.last_fired_deadline = None;
         self.now_at_dispatch = seqhooks::now_ns();
         for (i, a) in self.m.iter_mut().enumerate() {
@@ -1568,7 +1650,7 @@ impl Ctx {
                 KindSpec::Ping => a.ping,
                 KindSpec::Chan => !a.q.is_empty() || (a.senders == 0 && !a.closed_delivered),
                 KindSpec::Exec => !a.q.is_empty(),
-                KindSpec::Async => false,
+                KindSpec::Async | KindSpec::ExecIo => false,
                 KindSpec::Timer(_) => false, // decided after the wait (needs the poll time)
                 KindSpec::Fd { r, w, mode } => {
                     let ready = (r && a.fdc > 0) || (w && a.fdc < 2);
@@ -1702,7 +1784,7 @@ impl Ctx {
                 if a.spec == KindSpec::Async {
                     continue;
                 }
-                if a.spec == KindSpec::Exec && !a.alive && !self.rt[i].destroyed_checked && self.rt[i].track.src_dropped.get() == 1 {
+                if matches!(a.spec, KindSpec::Exec | KindSpec::ExecIo) && !a.alive && !self.rt[i].destroyed_checked && self.rt[i].track.src_dropped.get() == 1 {
                     self.rt[i].destroyed_checked = true;
                     self.clause("executor-destroyed");
                     if self.rt[i].sched.as_ref().unwrap().schedule(async { 0u8 }).is_ok() {
@@ -1745,7 +1827,8 @@ impl Ctx {
         // slot table vs model
         let stats = self.h.verif_stats();
         let occupied = stats.slots.iter().filter(|s| s.1).count();
-        let alive = self.m.iter().filter(|a| a.alive).count();
+        // an ExecIo actor owns two slots: the executor's and its task's adapter
+        let alive = self.m.iter().filter(|a| a.alive).count() + self.m.iter().filter(|a| a.alive && a.spec == KindSpec::ExecIo).count();
         if occupied != alive {
             self.violate(&["C06", "C15"], "slot-count", &[],
                 format!("{occupied} occupied slots but the model has {alive} inserted sources"));
@@ -1799,7 +1882,7 @@ impl Ctx {
             }
             let key = calloop::verif::registration_key(self.rt[i].token.as_ref().unwrap()) as u64;
             match a.spec {
-                KindSpec::Ping | KindSpec::Chan | KindSpec::Exec => {
+                KindSpec::Ping | KindSpec::Chan | KindSpec::Exec | KindSpec::ExecIo => {
                     expected.push((key, self.masks.expected(Interest::READ, Mode::Level), None, i))
                 }
                 KindSpec::Async => {}
@@ -1955,6 +2038,9 @@ pub fn run_history(cfg: &Rc<Cfg>, verbose: bool) -> (Outcome, Option<Vec<String>
         now_at_poll: 0,
         masks: masks(),
         poisoned: false,
+        idles: vec![],
+        teardown: false,
+        dispatch_no: 0,
         pending_efd: None,
         pending_stream: None,
         ever_rearmed_in_batch: false,
@@ -2003,6 +2089,24 @@ pub fn run_history(cfg: &Rc<Cfg>, verbose: bool) -> (Outcome, Option<Vec<String>
     }
     // drop the loop and every handle: everything still inserted is released exactly once
     let fp = if ctx.poisoned { None } else { fp_at_end };
+    // teardown: a pending task that owns an adapter keeps the loop alive (documented cycle);
+    // closing its peer lets it finish, which drops the adapter
+    if ctx.m.iter().any(|a| a.spec == KindSpec::ExecIo) && !ctx.poisoned {
+        ctx.teardown = true;
+        for (i, r) in ctx.rt.iter_mut().enumerate() {
+            if ctx.m[i].spec == KindSpec::ExecIo {
+                r.peer.take();
+                if ctx.m[i].alive && !ctx.m[i].enabled {
+                    if let Some(t) = r.token {
+                        let _ = ctx.h.enable(&t);
+                    }
+                }
+            }
+        }
+        for _ in 0..6 {
+            let _ = catch_unwind(AssertUnwindSafe(|| el.dispatch(Some(Duration::ZERO), &mut ctx)));
+        }
+    }
     let end_order = if cfg.end_order_choice && !ctx.poisoned { explore::choose(2, Kind::Free) } else { 0 };
     if end_order == 1 {
         ctx.decoded.push("end: sources and handles dropped before the loop".into());
